@@ -55,6 +55,7 @@ fn base_scenario(seed: u64, thorough: bool) -> Scenario {
     profile: "C13/crash".into(),
     config,
     ops,
+    server: None,
   }
 }
 
